@@ -243,6 +243,7 @@ Proof. intro WF. unfold clean, written. simpl. apply file_bounds_nonnull. exact 
 Section Ext.
   Variable X : value -> value -> bool.
   Variable E : cexpr -> row -> bool.
+  Variable B : cexpr -> bool.
   Variable PA : parg -> bool.
   Variable sch : list Z.
   Variable ids : list (Z * Z).
@@ -256,7 +257,7 @@ Section Ext.
 
   Lemma scan_table_ext v cols flt files :
     (forall f, In f files -> b1 f = b2 f) ->
-    scan_table X E PA sch ids b1 v cols flt files = scan_table X E PA sch ids b2 v cols flt files.
+    scan_table X E B PA sch ids b1 v cols flt files = scan_table X E B PA sch ids b2 v cols flt files.
   Proof.
     intro H. unfold scan_table. destruct (prepare PA flt) as [ec|k]; simpl; [|reflexivity].
     rewrite (prune_p_ext (fst ec) files H). reflexivity.
@@ -264,7 +265,7 @@ Section Ext.
 
   Lemma scan_batches_ext split cols flt files :
     (forall f, In f files -> b1 f = b2 f) ->
-    scan_batches X E PA sch ids b1 split cols flt files = scan_batches X E PA sch ids b2 split cols flt files.
+    scan_batches X E B PA sch ids b1 split cols flt files = scan_batches X E B PA sch ids b2 split cols flt files.
   Proof.
     intro H. unfold scan_batches. destruct (prepare PA flt) as [ec|k]; simpl; [|reflexivity].
     rewrite (prune_p_ext (fst ec) files H). reflexivity.
@@ -272,7 +273,7 @@ Section Ext.
 
   Lemma iter_records_ext cols flt files :
     (forall f, In f files -> b1 f = b2 f) ->
-    iter_records X E PA sch ids b1 cols flt files = iter_records X E PA sch ids b2 cols flt files.
+    iter_records X E B PA sch ids b1 cols flt files = iter_records X E B PA sch ids b2 cols flt files.
   Proof. intro H. unfold iter_records. rewrite (scan_batches_ext _ cols flt files H). reflexivity. Qed.
 End Ext.
 
@@ -282,7 +283,7 @@ Definition appends_written (ids : list (Z * Z)) (txs : list tx) : Prop :=
   forall t d, In t txs -> In d (tx_app t) -> wf_file ids (frows (dfile_ d)) /\ d = written ids (dpath d) (dfile_ d).
 
 Theorem history_sql
-        (X : value -> value -> bool) (E : cexpr -> row -> bool) (PA : parg -> bool)
+        (X : value -> value -> bool) (E : cexpr -> row -> bool) (B : cexpr -> bool) (PA : parg -> bool)
         (sch : list Z) (ids : list (Z * Z)) (bounds : file -> list (Z * value) * list (Z * value))
         (split : list row -> list (list row)) (v : bool)
         (cols : option (list Z)) (flt : pyfilter) (txs : list tx)
@@ -295,13 +296,14 @@ Theorem history_sql
   NoDup (paths (concat (map tx_app txs))) ->
   (forall d, In d (table_files (run txs [])) -> bounds (dfile_ d) = manifest_bounds d) ->
   let files := map dfile_ (table_files (run txs [])) in
+  refused B ce = false ->
   (forall e f r, ce = Some e -> In f files -> In r (frows f) -> eval3 X E e r <> None) ->
   let answer := Ok (sel cols (filter (row_selected X es) (concat (map frows (map dfile_ (spec_run txs [])))))) in
-  scan_table X E PA sch ids bounds v cols flt files = answer
-  /\ flat (scan_batches X E PA sch ids bounds split cols flt files) = answer
-  /\ iter_records X E PA sch ids bounds cols flt files = answer.
+  scan_table X E B PA sch ids bounds v cols flt files = answer
+  /\ flat (scan_batches X E B PA sch ids bounds split cols flt files) = answer
+  /\ iter_records X E B PA sch ids bounds cols flt files = answer.
 Proof.
-  intros P Sh V S ND AW NP B files NR answer.
+  intros P Sh V S ND AW NP Bo files NB NR answer.
   assert (C : forall t, In t txs -> Forall clean (tx_app t)).
   { intros t I. apply Forall_forall. intros d Id. destruct (AW t d I Id) as [WF Q]. rewrite Q. apply written_clean. exact WF. }
   assert (HF : table_files (run txs []) = spec_run txs []) by (apply history_files; auto).
@@ -309,13 +311,13 @@ Proof.
   { intros d I. apply spec_run_in in I. destruct I as [[]|[t [I1 I2]]]. apply (AW t d I1 I2). }
   assert (BE : forall f, In f files -> bounds f = stored_bounds ids f).
   { intros f I. unfold files in I. apply in_map_iff in I. destruct I as [d [<- I]].
-    rewrite (B d I). rewrite HF in I. destruct (W d I) as [_ Q]. rewrite Q at 1 2. unfold manifest_bounds, written, stored_bounds. simpl.
+    rewrite (Bo d I). rewrite HF in I. destruct (W d I) as [_ Q]. rewrite Q at 1 2. unfold manifest_bounds, written, stored_bounds. simpl.
     destruct (file_bounds ids (frows (dfile_ d))); reflexivity. }
   assert (WFf : forall f, In f files -> wf_file ids (frows f)).
   { intros f I. unfold files in I. apply in_map_iff in I. destruct I as [d [<- I]]. rewrite HF in I. apply (W d I). }
-  rewrite (scan_table_ext X E PA sch ids bounds (stored_bounds ids) v cols flt files BE).
-  rewrite (scan_batches_ext X E PA sch ids bounds (stored_bounds ids) split cols flt files BE).
-  rewrite (iter_records_ext X E PA sch ids bounds (stored_bounds ids) cols flt files BE).
+  rewrite (scan_table_ext X E B PA sch ids bounds (stored_bounds ids) v cols flt files BE).
+  rewrite (scan_batches_ext X E B PA sch ids bounds (stored_bounds ids) split cols flt files BE).
+  rewrite (iter_records_ext X E B PA sch ids bounds (stored_bounds ids) cols flt files BE).
   unfold answer. rewrite <- HF. fold files.
-  exact (api_sql X E PA sch ids split v cols flt files ps ce es P Sh V S ND WFf NR).
+  exact (api_sql X E B PA sch ids split v cols flt files ps ce es P Sh V S ND WFf NB NR).
 Qed.
